@@ -82,6 +82,12 @@ def world():
     return _world
 
 
+def tail_types(first):
+    """Classes of the clustering and the static column: they differ from the first key class so that a
+    key component taken from the wrong column cannot go unnoticed."""
+    return ('Integer' if first == 'Text' else 'Text', 'Text' if first == 'BigInt' else 'BigInt')
+
+
 def make_model(names, serial, db_field=False, compute=True):
     w = world()
     columns, Model = w['columns'], w['Model']
@@ -92,8 +98,9 @@ def make_model(names, serial, db_field=False, compute=True):
             kw['db_field'] = 'renamed_k0'
         attrs['k%d' % i] = getattr(columns, n)(**kw)
     # non-key columns get types that differ from every key type position-wise
-    attrs['c'] = columns.Text(primary_key=True) if names[0] != 'Text' else columns.Integer(primary_key=True)
-    attrs['st'] = columns.BigInt(static=True) if names[0] != 'BigInt' else columns.Text(static=True)
+    ct, stt = tail_types(names[0])
+    attrs['c'] = getattr(columns, ct)(primary_key=True)
+    attrs['st'] = getattr(columns, stt)(static=True)
     attrs['v'] = columns.Integer()
     return type('Gen%d' % serial, (Model,), attrs)
 
@@ -113,17 +120,28 @@ def picks(names, mode):
     return out
 
 
-def run_case(part, names, values, serial, db_field=False, compute=True):
+def direct_fp(why, label, composite, exc=None):
+    if why == 'raises':
+        return 'C38/raises/%s/%s' % (label, exc)
+    if why == 'unexpected':
+        return 'C38/unexpected/%s' % label
+    return 'C38/%s/%s/%s' % (why, label, 'composite' if composite else 'single')
+
+
+def exercise(part, M, keys, values, case, compute=True, fp=direct_fp, mark=None):
+    """Run every routed statement kind on model M whose partition key is `keys` = [(attribute, column
+    class)] in the order the table declares it, with key `values`, and judge each recorded statement."""
     from vt.spec import minicql
-    w = world()
-    s = w['session']
-    M = make_model(names, serial, db_field, compute)
+    s = world()['session']
+    names = tuple(n for _, n in keys)
     cql_types = [TYPE_BY_NAME[n][0] for n in names]
     expected = minicql.routing_key(cql_types, values) if compute else None
-    keykw = dict(('k%d' % i, v) for i, v in enumerate(values))
+    keykw = dict((a, v) for (a, _), v in zip(keys, values))
+    k0 = keys[0][0]
     ckval = 'c1' if names[0] != 'Text' else 7
     stval = 9 if names[0] != 'BigInt' else 's'
-    case = {'types': list(names), 'values': [repr(v) for v in values], 'db_field': db_field, 'compute': compute}
+    composite = len(names) > 1
+    mark = ','.join(names) if mark is None else mark
     s.take()
 
     def check(label, want_present, calls=None):
@@ -137,15 +155,16 @@ def run_case(part, names, values, serial, db_field=False, compute=True):
             if want_present:
                 if got != expected:
                     why = 'missing' if got is None else 'wrong'
-                    part.violation('C38/%s/%s/%s' % (why, label, 'composite' if len(names) > 1 else 'single'),
-                                   '%s %r: routing_key %r, Cassandra partition key bytes %r, key types %r values %r' % (
-                                       label, call.query[:120], got, expected, names, values),
+                    part.violation(fp(why, label, composite),
+                                   '%s %r: routing_key %r, Cassandra partition key bytes %r, key %r types %r values %r%s' % (
+                                       label, call.query[:120], got, expected, [a for a, _ in keys], names, values,
+                                       ' (%s)' % case['family']['where'] if 'family' in case else ''),
                                    dict(case, label=label))
                 else:
-                    part.mark_nontrivial('%s|%s' % (','.join(names), label))
+                    part.mark_nontrivial('%s|%s' % (mark, label))
             else:
                 if got is not None:
-                    part.violation('C38/unexpected/%s' % label,
+                    part.violation(fp('unexpected', label, composite),
                                    '%s %r carries routing_key %r although the partition key is not fixed (%r)' % (
                                        label, call.query[:120], got, case), dict(case, label=label))
             part.outcome((label, kind, 'rk' if got is not None else 'none'))
@@ -163,8 +182,11 @@ def run_case(part, names, values, serial, db_field=False, compute=True):
         except Exception as e:
             s.take()
             part.count('evaluations')
-            part.violation('C38/raises/%s/%s' % (label, type(e).__name__),
-                           '%s raised %r for key types %r values %r' % (label, e, names, values), dict(case, label=label))
+            part.outcome((label, 'raised', type(e).__name__))
+            part.violation(fp('raises', label, composite, type(e).__name__),
+                           '%s raised %r for key %r types %r values %r%s' % (
+                               label, e, [a for a, _ in keys], names, values,
+                               ' (%s)' % case['family']['where'] if 'family' in case else ''), dict(case, label=label))
             return False
         check(label, want_present)
         return True
@@ -173,19 +195,20 @@ def run_case(part, names, values, serial, db_field=False, compute=True):
 
     def do_create():
         holder['inst'] = M.create(c=ckval, v=1, **keykw)
-    if not step('create', present, do_create):
-        return
-    inst = holder['inst']
-    step('inst-update', present, lambda: inst.update(v=2))
+    if step('create', present, do_create):
+        inst = holder['inst']
+        step('inst-update', present, lambda: inst.update(v=2))
 
-    def do_save():
-        inst.st = stval
-        inst.v = None
-        inst.save()
-    step('inst-save', present, do_save)
-    step('inst-delete', present, lambda: inst.delete())
+        def do_save():
+            inst.st = stval
+            inst.v = None
+            inst.save()
+        step('inst-save', present, do_save)
+        step('inst-delete', present, lambda: inst.delete())
+    elif 'family' not in case:
+        return
     orders = [list(keykw.items())]
-    if len(names) > 1:
+    if composite:
         orders.append(list(reversed(list(keykw.items()))))
     for oi, items in enumerate(orders):
         tag = '' if oi == 0 else '-rev'
@@ -201,26 +224,227 @@ def run_case(part, names, values, serial, db_field=False, compute=True):
         list(q.filter(c=ckval))
     step('qs-select-chained', present, chained)
     # key not fully fixed
-    if len(names) > 1:
+    if composite:
         for drop in range(len(names)):
             kw = dict((k, v) for i, (k, v) in enumerate(keykw.items()) if i != drop)
             step('partial-select', False, lambda: list(M.objects.filter(**kw).allow_filtering()))
             step('partial-update', False, lambda: M.objects.filter(**kw).filter(c=ckval).update(v=4))
     kw1 = dict(keykw)
-    kw1['k0__in'] = [kw1.pop('k0')]
+    kw1[k0 + '__in'] = [kw1.pop(k0)]
     step('in-select', False, lambda: list(M.objects.filter(**kw1).allow_filtering()))
     if names[0] not in ('Boolean',):
         kw2 = dict(keykw)
-        kw2['k0__gte'] = kw2.pop('k0')
+        kw2[k0 + '__gte'] = kw2.pop(k0)
         step('range-select', False, lambda: list(M.objects.filter(**kw2).allow_filtering()))
     step('no-key-select', False, lambda: list(M.objects.filter(c=ckval).allow_filtering()))
     part.sample({'case': case, 'expected_routing_key': expected}, limit=2)
 
 
+def run_case(part, names, values, serial, db_field=False, compute=True):
+    M = make_model(names, serial, db_field, compute)
+    case = {'types': list(names), 'values': [repr(v) for v in values], 'db_field': db_field, 'compute': compute}
+    exercise(part, M, [('k%d' % i, n) for i, n in enumerate(names)], values, case, compute)
+
+
+# ------------------------------------------------------------------------------------------------
+# Model families: key columns inherited from abstract mixins / abstract bases / a concrete parent.
+# cqlengine hands the *same* column objects of a base class to every subclass and touches them again
+# whenever another subclass is defined, so what one model routes with may depend on which other
+# models were defined and in which order.  A family is a class-definition history; the routing keys
+# of every model of the family are judged after the whole history has been defined.
+#
+# class specification: name -> (bases, own key columns ((attribute, role, type slot), ...), kind)
+# roles: pk = partition_key=True, ck = primary_key=True; a type slot is bound to a column class by the
+# type assignment of the family.
+SPECS = {
+    'T': ((), (('t', 'pk', 'T'),), 'abstract'),           # key mixins: one partition-key column each
+    'B': ((), (('b', 'pk', 'B'),), 'abstract'),
+    'U': ((), (('u', 'pk', 'U'),), 'abstract'),
+    'TB': (('T', 'B'), (), 'abstract'),                   # abstract models composing the mixins
+    'BT': (('B', 'T'), (), 'abstract'),
+    'K2': ((), (('p', 'pk', 'T'), ('q', 'pk', 'B')), 'abstract'),   # abstract base with a two-column key
+    'ID': ((), (('id', 'ck', 'T'),), 'abstract'),         # abstract base whose only primary key is promoted
+    'P': (('T', 'B'), (), 'concrete'),                    # concrete parent model (is itself a routed model)
+    'PB': (('T', 'B'), (), 'polybase'),                   # polymorphic base (children share its table)
+}
+
+
+def _shapes():
+    out = []
+    mix = ('T', 'B', 'U')
+    for r in (1, 2, 3):
+        for sel in itertools.permutations(mix, r):
+            out.append(('mixins', sel, ()))
+    for r in (1, 2):
+        for sel in itertools.permutations(mix, r):
+            out.append(('mixins+own', sel, (('z', 'pk', 'Z'),)))
+    for sel in (('TB',), ('BT',), ('TB', 'U'), ('U', 'TB'), ('BT', 'U'), ('U', 'BT'), ('TB', 'T')):
+        out.append(('composed-mixins', sel, ()))
+    out.append(('two-key-base', ('K2',), ()))
+    out.append(('two-key-base', ('K2',), (('z', 'pk', 'Z'),)))
+    out.append(('two-key-base', ('K2', 'U'), ()))
+    out.append(('two-key-base', ('U', 'K2'), ()))
+    out.append(('override', ('T', 'B'), (('t', 'pk', 'O'),)))
+    out.append(('override', ('T', 'B'), (('b', 'pk', 'O'),)))
+    out.append(('override+own', ('T', 'B'), (('z', 'pk', 'Z'), ('t', 'pk', 'O'))))
+    out.append(('override+own', ('T', 'B'), (('t', 'pk', 'O'), ('z', 'pk', 'Z'))))
+    out.append(('override+own', ('T',), (('t', 'pk', 'O'), ('z', 'pk', 'Z'))))
+    out.append(('concrete-parent', ('P',), ()))
+    out.append(('concrete-parent', ('P',), (('z', 'pk', 'Z'),)))
+    out.append(('concrete-parent', ('P', 'U'), ()))
+    out.append(('promoted-id', ('ID',), ()))
+    out.append(('polymorphic', ('PB',), ()))
+    res = {}
+    for group, bases, own in out:
+        sid = '(%s)' % ','.join(bases) + ''.join('+%s:%s' % (a, t) for a, _, t in own)
+        if sid in res:
+            raise HarnessError('duplicate shape id %s' % sid)
+        res[sid] = (group, bases, own)
+    return res
+
+
+SHAPES = _shapes()
+SHAPE_IDS = list(SHAPES)
+
+# type assignments of the slots T, B, U (mixin columns), Z (own key column), O (overriding column)
+SLOTS = 'TBUZO'
+QUICK_ASSIGN = [('Integer', 'BigInt', 'Text', 'UUID', 'Blob')]
+
+
+def ref_columns(bases, own):
+    """Independent statement of cqlengine's documented column inheritance: the columns of the bases in
+    base order (a name keeps its first position), then the class's own columns in declaration order; an
+    own column named like an inherited one takes that one's place (and key role) with its own type."""
+    cols = []
+    for b in bases:
+        bb, bo, _ = SPECS[b]
+        for a, role, slot in ref_columns(bb, bo):
+            if a not in [c[0] for c in cols]:
+                cols.append([a, role, slot])
+    for a, role, slot in own:
+        for c in cols:
+            if c[0] == a:
+                c[2] = slot
+                break
+        else:
+            cols.append([a, role, slot])
+    return cols
+
+
+def ref_partition_key(bases, own):
+    cols = ref_columns(bases, own)
+    pk = [(a, slot) for a, role, slot in cols if role == 'pk']
+    if not pk:
+        pk = [(a, slot) for a, role, slot in cols if role == 'ck'][:1]
+    return pk
+
+
+class Family(object):
+    def __init__(self, assign, serial):
+        self.types = dict(zip(SLOTS, assign))
+        self.serial = serial
+        self.classes = {}
+        self.models = []          # (class, keys [(attr, column class)], shape id or spec name, group) in definition order
+        self.n = 0
+
+    def _col(self, role, slot):
+        columns = world()['columns']
+        cls = getattr(columns, self.types.get(slot, slot))
+        if role == 'pk':
+            return cls(partition_key=True)
+        if role == 'ck':
+            return cls(primary_key=True)
+        if role == 'static':
+            return cls(static=True)
+        return cls()
+
+    def _define(self, name, bases, own, kind, ident, group):
+        w = world()
+        attrs = {}
+        for b in bases:
+            if b not in self.classes:
+                bb, bo, bk = SPECS[b]
+                self._define('F%d_%s' % (self.serial, b), bb, bo, bk, b, 'concrete-parent')
+        pybases = tuple(self.classes[b] for b in bases) or (w['Model'],)
+        for a, role, slot in own:
+            attrs[a] = self._col(role, slot)
+        keys = [(a, self.types[slot]) for a, slot in ref_partition_key(bases, own)]
+        has_tail = any(SPECS[b][2] in ('concrete', 'polybase') for b in bases)
+        if kind == 'abstract':
+            attrs['__abstract__'] = True
+        else:
+            self.n += 1
+            attrs['__table_name__'] = 'f%d_%d' % (self.serial, self.n)
+            if not has_tail:
+                ct, stt = tail_types(keys[0][1])
+                attrs['c'] = self._col('ck', ct)
+                attrs['st'] = self._col('static', stt)
+                attrs['v'] = self._col('data', 'Integer')
+            if kind == 'polybase':
+                attrs['kind'] = w['columns'].Text(discriminator_column=True)
+            elif any(SPECS[b][2] == 'polybase' for b in bases):
+                attrs['__discriminator_value__'] = 'd%d' % self.n
+        cls = type(name, pybases, attrs)
+        if ident in SPECS:
+            self.classes[ident] = cls
+        if kind in ('concrete', 'polychild'):
+            self._crosscheck(cls, keys, ident)
+            self.models.append((cls, keys, ident, group))
+        return cls
+
+    def define_shape(self, sid):
+        group, bases, own = SHAPES[sid]
+        return self._define('F%d_m%d' % (self.serial, len(self.models)), bases, own, 'concrete', sid, group)
+
+    def _crosscheck(self, cls, keys, ident):
+        """The reference key must be the partition key of the table cqlengine itself would create for the
+        model; otherwise the family generator misstates cqlengine's inheritance rules (harness error)."""
+        import re
+        from cassandra.cqlengine.management import _get_create_table
+        text = _get_create_table(cls)
+        m = re.search(r'PRIMARY KEY \(\((.*?)\)', text)
+        if not m:
+            raise HarnessError('cannot read the partition key from %r' % text)
+        got = []
+        for name in [x.strip().strip('"') for x in m.group(1).split(',')]:
+            t = re.search(r'"%s" (\w+)' % re.escape(name), text)
+            got.append((name, t.group(1) if t else None))
+        want = [(a, TYPE_BY_NAME[n][0]) for a, n in keys]
+        if got != want:
+            raise HarnessError('family generator expects partition key %r for %s but the table is %r' % (want, ident, text))
+
+
+def run_family(part, fam):
+    """fam = {'assign': [5 class names], 'history': [shape ids], 'vi': int, 'serial': int}"""
+    f = Family(fam['assign'], fam['serial'])
+    for sid in fam['history']:
+        f.define_shape(sid)
+    part.count('families')
+    hist = '>'.join(fam['history'])
+    for idx, (cls, keys, ident, group) in enumerate(f.models):
+        stage = 'last-defined' if idx == len(f.models) - 1 else 'earlier-defined'
+        names = tuple(n for _, n in keys)
+        vals = picks(names, 'cyclic')
+        values = vals[(fam['vi'] + idx) % len(vals)]
+        where = 'model %d %s, %s of the definition history %s' % (idx, ident, stage, hist)
+        case = {'family': {'assign': list(fam['assign']), 'history': list(fam['history']), 'vi': fam['vi'],
+                           'model': idx, 'where': where},
+                'types': list(names), 'values': [repr(v) for v in values]}
+
+        def fp(why, label, composite, exc=None, group=group, stage=stage):
+            return 'C38/family/%s/%s/%s' % (group, stage, why if exc is None else '%s-%s' % (why, exc))
+        part.count('family_models')
+        exercise(part, cls, keys, values, case, True, fp, mark='%s#%d' % (hist, idx))
+
+
 def run_chunk(args):
     part = Part()
-    for serial, names, values, db_field, compute in args:
-        run_case(part, names, values, serial, db_field, compute)
+    for item in args:
+        if item[0] == 'family':
+            run_family(part, item[1])
+        else:
+            serial, names, values, db_field, compute = item
+            run_case(part, names, values, serial, db_field, compute)
     return part
 
 
@@ -247,40 +471,87 @@ def cases(ctx):
     return out
 
 
+def assignments(ctx):
+    if ctx.quick:
+        return list(QUICK_ASSIGN)
+    names = [n for n, _, _ in KEY_TYPES]
+    return [tuple(names[(i + j) % len(names)] for j in range(len(SLOTS))) for i in range(len(names))]
+
+
+def families(ctx):
+    """Definition histories: every ordered pair of model shapes (a shape with itself included: two tables
+    of the same layout), and the complete shape list defined in one family in every rotation of its
+    order, forwards and backwards."""
+    out = []
+    for assign in assignments(ctx):
+        for a in SHAPE_IDS:
+            for b in SHAPE_IDS:
+                out.append({'assign': assign, 'history': [a, b]})
+        seqs = []
+        for k in range(len(SHAPE_IDS)):
+            seqs.append(SHAPE_IDS[k:] + SHAPE_IDS[:k])
+        if ctx.quick:
+            seqs = seqs[::8]
+        for s in seqs:
+            out.append({'assign': assign, 'history': list(s)})
+            out.append({'assign': assign, 'history': list(reversed(s))})
+    for i, f in enumerate(out):
+        f['vi'] = i
+        f['serial'] = i
+    return out
+
+
 def run(ctx):
     from vt.spec import minicql
     minicql.selftest()
     cs = cases(ctx)
     items = [(i, n, v, d, c) for i, (n, v, d, c) in enumerate(cs)]
+    fams = families(ctx)
+    items += [('family', f) for f in fams]
     items = ctx.rotate(items)
     nchunks = ctx.nproc * 4
     chunks = [items[i::nchunks] for i in range(nchunks)]
     for part in ctx.pmap(run_chunk, [c for c in chunks if c]):
         ctx.merge(part)
     ctx.count('models', len(cs))
+    ctx.count('model_shapes', len(SHAPE_IDS))
     ctx.cov['rule'] = ('%d generated (model, key values) cases: every single key class x every boundary value; every ordered pair of the '
                        '18 classes (%s value tuples: cyclic = i-th boundary value of each class for every i, cyclic3 = the first three of those); triples over %s; plus db_field-renamed first key and __compute_routing_key__=False '
                        'per class; each case runs 4 instance statements, 4-8 query-set statements with a full key and the partial / IN / range '
                        '/ no-key selects; an evaluation = one executed statement; non-trivial = (key classes, statement kind) whose routing key '
-                       'was present and equal to the reference' % (len(cs), 'cyclic3' if ctx.quick else 'all',
-                                                                'the reduced list %r' % REDUCED if ctx.quick else 'all 18 classes'))
+                       'was present and equal to the reference.  Families: %d definition histories over %d model shapes %r (groups %s) under %d '
+                       'type assignment(s) of the slots %s: every ordered pair of shapes, and the whole shape list in %s rotation of its order '
+                       'forwards and backwards; every concrete model of a history (counter family_models) runs the same statements after the '
+                       'last class of the history has been defined; non-trivial there = (history, model, statement kind)' % (
+                           len(cs), 'cyclic3' if ctx.quick else 'all',
+                           'the reduced list %r' % REDUCED if ctx.quick else 'all 18 classes',
+                           len(fams), len(SHAPE_IDS), SHAPE_IDS, sorted(set(g for g, _, _ in SHAPES.values())),
+                           len(assignments(ctx)), SLOTS, 'every 8th' if ctx.quick else 'every'))
     ctx.cov['exhaustive'] = True
     ctx.assume('Cassandra hashes: single-component key = the value bytes; composite = per component 2-byte big-endian length, bytes, 0x00')
     ctx.assume('DateTime key values are whole seconds (the millisecond conversion of DateTime.to_database is C36\'s subject)')
     ctx.assume('a statement that restricts a key component with IN or a range does not "fix" the partition key: no routing key is required or allowed')
     ctx.assume('BatchQuery sends a plain string without routing key; batches are outside C38')
     ctx.assume('frozen collection / tuple / UDT partition keys are not generated')
+    ctx.assume('the table of an inheriting model has the partition key cqlengine documents: inherited columns in base order, then own columns; '
+               'each family model is cross-checked against the CREATE TABLE text cqlengine generates for it at definition time (harness error otherwise)')
+    ctx.assume('an abstract base with a promoted (primary_key-only) key is not combined with partition_key=True mixins: which table results is '
+               'not pinned down by the documentation')
 
 
 def replay(ctx, data):
     part = Part()
-    names = tuple(data['types'])
-    for vals in picks(names, 'all'):
-        if [repr(v) for v in vals] == data['values']:
-            run_case(part, names, vals, 0, data.get('db_field', False), data.get('compute', True))
-            break
+    if 'family' in data:
+        f = data['family']
+        run_family(part, {'assign': tuple(f['assign']), 'history': list(f['history']), 'vi': f['vi'], 'serial': 0})
     else:
-        raise HarnessError('recorded key values not found in the generator: %r' % (data,))
+        names = tuple(data['types'])
+        for vals in picks(names, 'all'):
+            if [repr(v) for v in vals] == data['values']:
+                run_case(part, names, vals, 0, data.get('db_field', False), data.get('compute', True))
+                break
+        else:
+            raise HarnessError('recorded key values not found in the generator: %r' % (data,))
     for fp, what, _ in part.violations:
         print(fp, '::', what)
     return bool(part.violations)
